@@ -21,7 +21,14 @@ RULE = ('abstract FRU images (every subset of internal/chassis/board/product/mul
         '(quick: boundary + seeded values per position, thorough: all 255) – a covered byte must be rejected, an '
         'info-area length byte may be accepted only when the spec says the re-delimited range sums to zero.  '
         'Sub-parser stream: TypeLengthString, each info-area class, the multi-record area and the header on mutated '
-        'and random bytes (tie only).  A case is distinct by (stream, input kind, image bytes).')
+        'and random bytes (tie only).  Device histories: ONE long-lived Ipmi object (real codec, byte-level FRU device '
+        'with several FRU ids): image A read (inventory or header), then the contents replaced by image B with another '
+        'area layout - behind the back of the library / by a complete write_fru_data / by a write that fails at the first or '
+        'a later chunk (error code or short acknowledge) and is resumed / tail first - with reads of another FRU id in '
+        'between, sometimes back to A; every read is judged against the spec view of the image the device holds at that '
+        'moment and compared with the Lean parser model; a violation a fresh object does not show is reported as '
+        'C15:parse-encode:...:after-earlier-operations with the shrunk history.  '
+        'A case is distinct by (stream, input kind, image bytes).')
 ASSUMPTIONS = [
     'model of fru.py/fields.py/utils.bcd_decode is hand-written (lean/PyIpmi/Model/FruParse.lean) and tied by this '
     'correspondence run; BCD_MAP, the 6-bit unpack masks/shifts, type/length masks, record dispatch constants and '
@@ -30,7 +37,9 @@ ASSUMPTIONS = [
     'compared with the civil date computed by Spec.dateOfMinutes on every generated board area',
     'type 11b fields are 8-bit ASCII + Latin-1 (the 2-byte UNICODE reading under non-English language codes is not '
     'part of the property); record type C0h is generated only as a PICMG record (manufacturer id 00315Ah)',
-    'the device path (Ipmi.get_fru_inventory) is judged against the spec view only; its transfer loop is C10',
+    'the device path (Ipmi.get_fru_inventory) is judged against the spec view (and, in the history stream, the Lean '
+    'parser model); its transfer loop is C10; the byte-level device of the history stream (FruStore in c15.py) is written '
+    'from IPMI v2.0 34.1-34.3 and is trusted; what a faulted write must raise is not judged here',
     'three characters of 6-bit text occupy the same 3 bytes as four (the fourth being a space): the view pads, '
     'a limit of the packed format',
 ]
@@ -488,6 +497,285 @@ def real_date(data, kind='b'):
 
 
 # ------------------------------------------------------------------------------------------
+# device histories: ONE long-lived Ipmi object, the device contents change between reads
+# ------------------------------------------------------------------------------------------
+#
+# case = {'op': 'history', 'images': [{'hex', 'view', 'label'}...], 'size': bytes per inventory area,
+#         'limit': most bytes per read, 'init': {fru id: image index}, 'steps': [...], 'step': k}
+# steps: {'do': 'inv'|'hdr', 'fid'}                         get_fru_inventory / get_fru_inventory_header
+#        {'do': 'poke', 'fid', 'img'}                        the device contents are replaced behind the library's back
+#        {'do': 'write', 'fid', 'img', 'off', 'faults'}      write_fru_data(image[off:], offset=off, fru_id); `faults`
+#            = [[k, 'c', code] | [k, 's', n]]: write request k of this call is answered with a bare completion code /
+#            stores and acknowledges only n bytes (the caller then resumes with a later write step)
+# Every read step is judged against the image the device holds for that FRU id AT THAT MOMENT (the image of
+# `images` that is a prefix of the stored bytes; none -> not judged): the view the spec encoder gave for it.
+
+_MODEL = {}
+
+
+class FruStore(object):
+    """byte-level FRU inventory device (IPMI v2.0 34.1-34.3), one byte string per FRU id"""
+
+    def __init__(self, mem, limit):
+        self.mem = dict((int(i), bytearray(b)) for i, b in mem.items())
+        self.limit = limit
+        self.plan = []
+        self.n = 0
+        self.log = []
+
+    def handle(self, netfn, cmd, data):
+        data = bytes(data)
+        n = self.n
+        self.n += 1
+        rsp = self._answer(n, netfn, cmd, data)
+        self.log.append((cmd, data, rsp))
+        return rsp
+
+    def _answer(self, n, netfn, cmd, data):
+        if netfn != 0x0A:
+            return b'\xc1'
+        fault = next(((t, v) for k, t, v in self.plan if k == n), None)
+        if fault and fault[0] == 'c':
+            return bytes([fault[1]])
+        if cmd == 0x10:
+            if len(data) != 1:
+                return b'\xc7'
+            if data[0] not in self.mem:
+                return b'\xcb'
+            size = len(self.mem[data[0]])
+            return bytes([0x00, size & 0xff, size >> 8, 0x00])
+        if cmd == 0x11:
+            if len(data) != 4:
+                return b'\xc7'
+            if data[0] not in self.mem:
+                return b'\xcb'
+            mem, off, cnt = self.mem[data[0]], data[1] | data[2] << 8, data[3]
+            if cnt == 0:
+                return b'\xcc'
+            if cnt > self.limit:
+                return b'\xca'
+            if off + cnt > len(mem):
+                return b'\xc9'
+            return bytes([0x00, cnt]) + bytes(mem[off:off + cnt])
+        if cmd == 0x12:
+            if len(data) < 3:
+                return b'\xc7'
+            if data[0] not in self.mem:
+                return b'\xcb'
+            mem, off, new = self.mem[data[0]], data[1] | data[2] << 8, data[3:]
+            if fault and fault[0] == 's':
+                new = new[:fault[1]]
+            if off >= len(mem) and new:
+                return b'\xc9'
+            new = new[:len(mem) - off]
+            mem[off:off + len(new)] = new
+            return bytes([0x00, len(new)])
+        return b'\xc1'
+
+
+def _pad(image, size):
+    return bytes(image) + b'\xff' * (size - len(image))
+
+
+def _held_image(images, mem):
+    """index of the image the stored bytes start with (longest), or None"""
+    best = None
+    for i, im in enumerate(images):
+        b = lean.unhex(im['hex'])
+        if bytes(mem[:len(b)]) == b and (best is None or len(b) > len(lean.unhex(images[best]['hex']))):
+            best = i
+    return best
+
+
+def _hdr_part(view):
+    return view.split(' ', 1)[0][2:]
+
+
+def _read_step(ipmi, st):
+    from ..sim import dev11
+    try:
+        if st['do'] == 'inv':
+            return 'ok ' + canon_areas(ipmi.get_fru_inventory(fru_id=int(st['fid'])))
+        return 'ok ' + canon_header(ipmi.get_fru_inventory_header(fru_id=int(st['fid'])))
+    except dev11.HangGuard:
+        return 'py:Hang'
+    except Exception as e:  # noqa
+        return exc_tag(e)
+
+
+def run_history(case, upto=None):
+    """-> per step: None (not a read) | (held image index or None, real outcome, expected outcome or None)"""
+    from ..sim import dev11
+    images = case['images']
+    size = int(case['size'])
+    dev = FruStore(dict((int(f), _pad(lean.unhex(images[i]['hex']), size)) for f, i in case['init'].items()),
+                   int(case['limit']))
+    ipmi, iface = dev11.make_ipmi(dev.handle, cap=20000)
+    res = []
+    for st in case['steps'][:upto]:
+        fid = int(st['fid'])
+        dev.plan, dev.n = [], 0
+        iface.calls = 0
+        if st['do'] == 'poke':
+            dev.mem[fid] = bytearray(_pad(lean.unhex(images[st['img']]['hex']), size))
+            res.append(None)
+        elif st['do'] == 'write':
+            b = lean.unhex(images[st['img']]['hex'])
+            dev.plan = [(int(k), t, int(v)) for k, t, v in st.get('faults') or []]
+            try:
+                ipmi.write_fru_data(array.array('B', b[int(st['off']):]), offset=int(st['off']), fru_id=fid)
+            except dev11.HangGuard:
+                pass
+            except Exception:  # noqa  (a faulted write raises; what it must raise is C10's business)
+                pass
+            res.append(None)
+        else:
+            held = _held_image(images, dev.mem.get(fid, b''))
+            real = _read_step(ipmi, st)
+            want = None
+            if held is not None:
+                v = images[held]['view']
+                want = 'ok ' + (_areas_part(v) if st['do'] == 'inv' else _hdr_part(v))
+            res.append((held, real, want, bytes(dev.mem.get(fid, b''))))
+    return res
+
+
+def _fresh_read(case, st, mem):
+    """the same read by a fresh Ipmi object from a fresh device holding `mem`"""
+    from ..sim import dev11
+    dev = FruStore({int(st['fid']): mem}, int(case['limit']))
+    ipmi, _ = dev11.make_ipmi(dev.handle, cap=20000)
+    return _read_step(ipmi, st)
+
+
+def _history_bad(case):
+    r = run_history(case)[-1]
+    return r is not None and r[2] is not None and r[1] != r[2]
+
+
+def shrink_history(case, k):
+    steps = list(case['steps'][:k + 1])
+    i = 0
+    while i < len(steps) - 1:
+        cand = steps[:i] + steps[i + 1:]
+        if _history_bad(dict(case, steps=cand)):
+            steps = cand
+        else:
+            i += 1
+    return dict(case, steps=steps, step=len(steps) - 1)
+
+
+def history_case(ctx, drv, vv, case, feats, tag):
+    res = run_history(case)
+    ctx.count('history:' + tag)
+    for k, r in enumerate(res):
+        st = case['steps'][k]
+        ctx.count('history-step:' + st['do'] + ('+fault' if st.get('faults') else ''))
+        if r is None:
+            continue
+        held, real, want, mem = r
+        ctx.case(('history', case['size'], case['limit'], repr(case['init']), repr(case['steps'][:k + 1]),
+                  tuple(im['hex'] for im in case['images'])), nontrivial=k >= 1)
+        if want is None:
+            ctx.count('history-read:no-image-held(not judged)')
+            continue
+        ctx.count('history-read:' + ('first' if not any(x is not None for x in res[:k]) else 'after-earlier-reads'))
+        if drv is not None and st['do'] == 'inv':
+            # tie: the Lean model of the parser on the image the device holds now
+            hx = case['images'][held]['hex']
+            if hx not in _MODEL:
+                _MODEL[hx] = drv.ask('parse %s a %s' % (vv, hx))
+            m = _MODEL[hx]
+            m = 'ok ' + _areas_part(m[3:]) if m.startswith('ok ') else m
+            if m != real:
+                ctx.disagree('device-history', {'step': k, 'steps': case['steps'][:k + 1], 'hex': hx[:200]}, m[:300], real[:300])
+        if real == want:
+            continue
+        sig = _diagnose(real, 'dev', feats[held])
+        what = 'a well-formed FRU image (%s) read from a FRU device (%s of FRU %s) is not parsed to the encoded values' % (
+            case['images'][held]['label'], 'get_fru_inventory' if st['do'] == 'inv' else 'get_fru_inventory_header', st['fid'])
+        if k > 0 and _fresh_read(case, st, mem) == want:
+            sig = 'C15:parse-encode:%s:after-earlier-operations' % ('wrong-values' if real.startswith('ok ') else 'raises')
+            what += ' (real code: %s)' % real.split(' ')[0]
+            what += ' - by an Ipmi object that read this FRU before the device contents changed (a fresh object reads it correctly)'
+            small = shrink_history(case, k)
+        else:
+            small = dict(case, init={st['fid']: held}, steps=[st], step=0)
+        ctx.violate(sig, what, small, expected=want[:600], observed=real[:600])
+        return
+
+
+def _write_steps(rng, fid, img_idx, nbytes, mode, wl=16):
+    """steps that bring image `img_idx` (nbytes long) into FRU `fid` through write_fru_data"""
+    nch = max(1, (nbytes + wl - 1) // wl)
+    if mode == 'complete':
+        return [{'do': 'write', 'fid': fid, 'img': img_idx, 'off': 0}]
+    if mode == 'tail-first':
+        return [{'do': 'write', 'fid': fid, 'img': img_idx, 'off': 8}, {'do': 'write', 'fid': fid, 'img': img_idx, 'off': 0}]
+    k = 0 if mode == 'fault-first-chunk' or nch == 1 else rng.randrange(1, nch)
+    clen = min(wl, nbytes - k * wl)
+    if rng.random() < 0.5:
+        flt, stored = [k, 'c', rng.choice([0xC3, 0xC0, 0xFF, 0xD5])], 0
+    else:
+        stored = rng.choice([0, 1, 8, clen - 1]) if clen > 1 else 0
+        stored = min(stored, clen - 1)
+        flt = [k, 's', stored]
+    j = k * wl + stored
+    return [{'do': 'write', 'fid': fid, 'img': img_idx, 'off': 0, 'faults': [flt]},
+            {'do': 'write', 'fid': fid, 'img': img_idx, 'off': j}]
+
+
+HISTORY_SHAPES = ('poke', 'complete', 'fault-later-chunk', 'fault-first-chunk', 'tail-first', 'other-fru', 'header-first',
+                  'same-image-twice')
+
+
+def device_histories(ctx, drv, vv, rng, valid):
+    quick = ctx.tier == 'quick'
+    pool = [v for v in valid if 24 <= len(v[2]) // 2 <= 700 and v[0] not in ('min-bcd', 'min-six1', 'min-six2', 'min-six4')]
+    if len(pool) < 3:
+        ctx.notes.append('device histories: fewer than three usable images')
+        return
+    n_pairs = 30 if quick else 400
+    for _ in range(n_pairs):
+        a = rng.choice(pool)
+        for _try in range(20):
+            b = rng.choice(pool)
+            if _hdr_part(b[4]) != _hdr_part(a[4]):
+                break
+        c = rng.choice(pool)
+        trio = [a, b, c]
+        images = [{'hex': x[2], 'view': x[4], 'label': x[0]} for x in trio]
+        feats = [features(x[1]) for x in trio]
+        ctx.count('history-pair:%s' % ('same-layout' if _hdr_part(a[4]) == _hdr_part(b[4]) else 'different-layout'))
+        size = (max(len(x[2]) // 2 for x in trio) + 7) // 8 * 8 + rng.choice([0, 8, 256])
+        fid = rng.choice([0, 0, 1, 7, 254, 255])
+        oth = rng.choice([i for i in (0, 3, 9, 200) if i != fid])
+        base = {'op': 'history', 'images': images, 'size': size, 'limit': rng.choice([32, 32, 16, 255, 8]),
+                'init': {fid: 0, oth: 2}}
+        nb = len(b[2]) // 2
+        for shape in HISTORY_SHAPES:
+            first = {'do': rng.choice(['inv', 'inv', 'hdr']) if shape != 'header-first' else 'hdr', 'fid': fid}
+            if shape == 'poke':
+                mid = [{'do': 'poke', 'fid': fid, 'img': 1}]
+            elif shape == 'other-fru':
+                mid = [{'do': 'inv', 'fid': oth}, {'do': 'poke', 'fid': fid, 'img': 1}, {'do': 'inv', 'fid': oth}]
+            elif shape == 'same-image-twice':
+                mid = [{'do': 'inv', 'fid': oth}]
+            elif shape == 'header-first':
+                mid = _write_steps(rng, fid, 1, nb, rng.choice(['complete', 'fault-later-chunk', 'fault-later-chunk']))
+            else:
+                mid = _write_steps(rng, fid, 1, nb, shape)
+            steps = [first] + mid + [{'do': 'inv', 'fid': fid}, {'do': 'hdr', 'fid': fid}]
+            if rng.random() < 0.3:      # and back to the first image
+                steps += [{'do': 'poke', 'fid': fid, 'img': 0}] if rng.random() < 0.5 else _write_steps(rng, fid, 0, len(a[2]) // 2, 'fault-later-chunk')
+                steps += [{'do': 'inv', 'fid': fid}]
+            history_case(ctx, drv, vv, dict(base, steps=steps, step=len(steps) - 1), feats, shape)
+        if ctx.time_left() < (20 if quick else 120):
+            ctx.notes.append('device histories stopped early (time)')
+            break
+
+
+# ------------------------------------------------------------------------------------------
 # judging
 # ------------------------------------------------------------------------------------------
 
@@ -689,6 +977,10 @@ def _run(ctx):
     ctx.extra['kept_results_re_read'] = len(_KEEP or [])
     _KEEP = None
 
+    # ---- device histories: one long-lived Ipmi object, device contents replaced between reads
+    _MODEL.clear()
+    device_histories(ctx, drv, vv, ctx.rng('c15-history'), valid)
+
     # ---- alteration stream
     n_alt = 14 if quick else 40
     pool = [v for v in valid if 16 <= len(v[2]) // 2 <= (220 if quick else 600)]
@@ -881,6 +1173,25 @@ def replay(ctx, v):
                     ok = False
                 return not ok
             return real.startswith('ok ')
+        if op == 'history':
+            print('FRU device: %d bytes per inventory area, at most %d bytes per read; initially %s' % (
+                case['size'], case['limit'], ', '.join('FRU %s = image %s' % (f, i) for f, i in sorted(case['init'].items()))))
+            for i, im in enumerate(case['images']):
+                print('  image %d (%s, %d bytes): %s' % (i, im['label'], len(im['hex']) // 2, im['view'][:160]))
+            print('history on ONE Ipmi object:')
+            bad = False
+            for k, (st, r) in enumerate(zip(case['steps'], run_history(case))):
+                print(' step %d : %s' % (k, ' '.join('%s=%s' % kv for kv in sorted(st.items()))))
+                if r is None:
+                    continue
+                held, real, want, _ = r
+                print('   device holds image %s' % held)
+                print('   expected  : %s' % (want or '(not judged)')[:400])
+                print('   real code : %s' % real[:400])
+                if want is not None and real != want:
+                    bad = True
+                    print('   VIOLATED')
+            return bad
         if op == 'reread':
             from pyipmi import fru
             data = lean.unhex(case['hex'])
